@@ -249,8 +249,18 @@ def _crash_point(cfg, root, base, e, k, when, prepare=_replay_until, sample=Fals
     except T.Crash:
         pass
     else:
-        raise RuntimeError("harness: crash point %d/%s of epoch %d was not reached" % (k, when, e))
-    if inj.events != base[e - 1]["events"][: k + 1]:
+        if prepare is _replay_until:
+            raise RuntimeError("harness: crash point %d/%s of epoch %d was not reached" % (k, when, e))
+        # the script restarted on the files of epoch e-1 performed fewer file operations in update e than the uninterrupted
+        # run did: there is nothing to interrupt here, but what the completed update left must be what the uninterrupted one left
+        left, want = s.files(), base[e - 1].get("files")
+        rec = None
+        if want is not None and left != want:
+            rec = dict(stage="restarted_update", what="state directory after update %d performed by a restarted script differs from "
+                       "the uninterrupted run's" % e, observed=left, expected=want, epoch=e, k=k, when=when,
+                       done=["%s:%s" % tuple(x) for x in inj.events])
+        return rec, False
+    if inj.events != base[e - 1]["events"][: k + 1] and prepare is _replay_until:
         raise RuntimeError("harness: event sequence not reproducible: %r vs %r" % (inj.events, base[e - 1]["events"]))
     states[e] = T.snapshot(s.model, s.opt)   # what the dying update was about to save / had saved
     left = s.files()
